@@ -311,6 +311,16 @@ def gen_refined(ctx, add, other):
     # histories: the same good requests with and without malformed ones in between, on a fresh broker each
     for k in range(12 if not thorough else 120):
         gen_history(ctx, other, k)
+    # repeated session ids over TCP: the same /proxy request again while the first is pending / matched / just answered;
+    # every one of them must get a complete response within the protocol's 10 s wait (plus slack)
+    k = 0
+    for mode in ("pending", "matched", "expired"):
+        for nat in (["unrestricted", "restricted"] if not thorough else ["unrestricted", "restricted", "unknown", ""]):
+            if not thorough and (mode, nat) in (("expired", "restricted"),):
+                continue
+            k += 1
+            other("repeated-session-id", "duppoll %s %s %s" % (mode, hx(("dup-%s-%d" % (mode, k)).encode()), hx(nat.encode())),
+                  dict(op="duppoll", mode=mode, nat=nat))
 
 
 def gen_history(ctx, other, k):
@@ -536,6 +546,37 @@ def eval_twin_pairs(ctx, pairs):
     ctx.extra["twin_pairs"] = dict(over_limit=n_over, within_limit=n_within)
 
 
+POLL_WAIT_MS = 10000
+POLL_SLACK_MS = 4000
+
+
+def eval_duppoll(ctx, info, o, rep):
+    """every request of a repeated-session-id case got a complete, well-formed response within the protocol's wait:
+    the polls 200 with a decodable poll response, the client (mode matched) 200"""
+    d = brokerlib.parse_obs(o)
+    polls = [p.split(":") for p in d.get("polls", "").split(",") if p]
+    want = {"pending": 3, "matched": 2, "expired": 2}[info["mode"]]
+    if len(polls) != want:
+        ctx.not_shown("repeated session id (%s): driver reported %d polls, wanted %d: %s" % (info["mode"], len(polls), want, o[:200]))
+        return
+    for n, (st, cls, ms) in enumerate(polls):
+        what = "repeated session id (%s, NAT %r): /proxy request #%d under the same Sid" % (info["mode"], info["nat"], n + 1)
+        if st == "0":
+            ctx.violation("no-wellformed-response", "%s got no complete HTTP response within 16 s (the protocol's wait is 10 s)" % what, rep)
+        elif st != "200" or cls not in ("nomatch", "match"):
+            ctx.violation("bad-status", "%s answered %s (%s)" % (what, st, cls), rep)
+        elif int(ms) > POLL_WAIT_MS + POLL_SLACK_MS:
+            ctx.violation("slow-response", "%s answered after %s ms" % (what, ms), rep)
+    if info["mode"] == "matched":
+        c = d.get("client", "-").split(":")
+        if c[0] in ("-", "0"):
+            ctx.violation("no-wellformed-response", "repeated session id (matched): the waiting client got no complete HTTP response within 16 s", rep)
+        elif c[0] != "200":
+            ctx.violation("bad-status", "repeated session id (matched): the waiting client was answered %s" % c[0], rep)
+        if polls[0][1] != "match":
+            ctx.not_shown("repeated session id (matched): the first poll was not handed the client's offer (%s)" % o[:200])
+
+
 def eval_histories(ctx, hist):
     """the clause: a request cannot mishandle later ones. Responses of the kept requests must be the same with and without the
     dropped ones in between (theorem C14_history_unaffected for the requests that reach no IPC call; observed for the rejected ones)"""
@@ -639,7 +680,7 @@ def finish_live(ctx, th, box):
     for n in box["notshown"]:
         ctx.not_shown(n)
     st = box["stats"]
-    for name in ("idle-poll", "client-v-silent", "client-l-silent", "client-a-silent"):
+    for name in ("idle-poll", "idle-poll-repeat", "client-v-silent", "client-l-silent", "client-a-silent"):
         ctx.count("live-binary " + name, kind="live-binary-slow-response")
     ctx.count("live-binary immediate x%d" % st.get("live_requests", 0), kind="live-binary")
     ctx.count("soak matches=%s debug=%s" % (st.get("soak_matches"), st.get("soak_debug")), kind="soak")
@@ -672,12 +713,29 @@ def run_rest(ctx, exe):
             raise RuntimeError("driver op twinenc failed rc=%s: %s %s" % (rc_, out_[:2], err_[-400:]))
         return [unhexb(o.split(" srv=")[0].split(" twin=")[1]) for o in out_]
     cases = gen(ctx, twinenc)
-    cases.sort(key=lambda c: 0 if c[0] == "proxy-rejected-pattern" else 1)   # stable: the rejected polls go first
+    # stable: the rejected polls go first; the repeated-session-id cases (10-20 s of waiting each) start at once, beside the rest
+    cases.sort(key=lambda c: 0 if c[0] == "proxy-rejected-pattern" else 1 if c[0] == "repeated-session-id" else 2)
     lines = [c[1] for c in cases]
-    rc, out, err = vlib.run_impl(exe, lines, args=["-test.run", "^TestVerifHttpDriver$"], env=env, timeout=900)
+    # the raw-HTTP driver (its repeated-session-id cases wait 10-20 s) runs beside the scenario driver (whose scenarios
+    # wait for the same protocol timers): both mostly sleep
+    hbox = [None]
+
+    def http_work():
+        hbox[0] = vlib.run_impl(exe, lines, args=["-test.run", "^TestVerifHttpDriver$"], env=env, timeout=900)
+    hth = threading.Thread(target=http_work, daemon=True)
+    hth.start()
+    nv0 = len(ctx.violations)
+    try:
+        run_scenario_part(ctx)
+    finally:
+        hth.join()
+    scen_viol = ctx.violations[nv0:]      # reported after the HTTP-level findings (the replay file keeps the first 20)
+    del ctx.violations[nv0:]
+    rc, out, err = hbox[0] if hbox[0] is not None else (1, [], "http driver thread died")
     if rc != 0 or len(out) != len(lines):
         ctx.violation("driver-crash", "broker http driver died rc=%s (a request may have crashed the process): %s" % (rc, err[-800:]),
                       dict(label="http", stderr=err[-3000:]))
+        ctx.violations.extend(scen_viol)
         return
     mlines, minfo = [], []
     slines, sinfo = [], []       # refined model: serve lines
@@ -697,6 +755,9 @@ def run_rest(ctx, exe):
         if op == "hdrget":
             slines.append(line)
             sinfo.append((kind, line, o, info))
+            continue
+        if op == "duppoll":
+            eval_duppoll(ctx, info, o.split(" srv=")[0], rep)
             continue
         if op == "seq":
             res = o.split(" srv=")[0].split(";")
@@ -754,8 +815,13 @@ def run_rest(ctx, exe):
     refined_sample = eval_refined(ctx, slines, sinfo)
     eval_twin_pairs(ctx, pairs)
     eval_histories(ctx, hist)
+    ctx.violations.extend(scen_viol)
+
+
+def run_scenario_part(ctx):
     # legacy == versioned through real matches, timeouts and answers: the scenario driver with client modes l / v / a
-    scens = [s for s in brokerlib.scenarios(ctx.rng, ctx.tier) if s.kind in ("match-answer", "client-timeout-late-answer", "no-proxies", "incompatible-pool", "early-answer-then-match")]
+    scens = [s for s in brokerlib.scenarios(ctx.rng, ctx.tier) if s.kind in ("match-answer", "client-timeout-late-answer", "no-proxies", "incompatible-pool", "early-answer-then-match",
+                                                                          "duplicate-sid", "duplicate-sid-herd")]
     # explicit legacy / versioned / AMP twins whose answers contain characters a careless legacy path could mangle
     twins = []
     for j, ans in enumerate(["a%d%s%25-x", "%", "100%%", "{v=0%0d%0a}", "plain"]):
